@@ -83,7 +83,8 @@ def skipped (st : HState) : HState := { st with lines := st.lines + 1, thisLooks
     both range readers do nothing, and which is no continuation of a unified / normal range seen on the line before -/
 theorem headerStep_skip (st : HState) (l : Bytes) (strip : Int) (f : InertFacts l)
     (hext : (if st.isGit then parseGitExtendedInfo l st.patch strip else .ok (false, st.patch)) = .ok (false, st.patch))
-    (hU : ¬ (st.thisLooks = .unified ∧ (startsWith l "+" ∨ startsWith l "-" ∨ startsWith l " ")))
+    (hU : ¬ (st.thisLooks = .unified ∧ (startsWith l "+" ∨ startsWith l "-" ∨ startsWith l " " ∨
+      (l = [] ∧ (0 : Int) < st.hunk.old.count ∧ (0 : Int) < st.hunk.new.count))))
     (hN : ¬ (st.thisLooks = .normal ∧ (startsWith l "> " ∨ startsWith l "< "))) :
     headerStep st l strip = .ok (skipped st, true) := by
   have hu := parseUnifiedRange_none st.hunk l f.atat
